@@ -14,6 +14,7 @@ CONSTANTS
   OverwriteTags <- N_OverTags
   StickyKwargs = FALSE
   LazySetitemLost = FALSE
+  RollShortcut = FALSE
   SharedHandle = FALSE
 VIEW View
 INVARIANT SameAsNumpy
